@@ -8,6 +8,8 @@
 //         | 'E' tag ';' attr* '>' node* '<'   element
 //         | 'F' node* '<'                     <>…</>
 //         | 'W' node* '<'                     <Wrap>…</Wrap>
+//         | 'M' hex ';'                       <!-- "…" -->
+//         | 'Y'                               <!DOCTYPE html>   (only as the first root node)
 //   attr := 'A' d hex ';' hex ';'             name="v" (d=0) / name={v} (d=1)
 //         | 'G' hex ';'                       name            (no value)
 //         | 'b' hex ';' bit                   name={bool}
@@ -38,6 +40,8 @@ pub enum Tmpl {
     Elem(String, Vec<TAttr>, Vec<Tmpl>),
     Frag(Vec<Tmpl>),
     Comp(Vec<Tmpl>),
+    Comment(String),
+    Doctype,
 }
 
 pub fn hx(s: &str) -> String {
@@ -95,6 +99,8 @@ fn enc(nodes: &[Tmpl], o: &mut String) {
                 enc(kids, o);
                 o.push('<');
             }
+            Tmpl::Comment(c) => o.push_str(&format!("M{};", hx(c))),
+            Tmpl::Doctype => o.push('Y'),
         }
     }
 }
@@ -153,6 +159,14 @@ impl<'a> Dec<'a> {
                 Some(b'W') => {
                     self.i += 1;
                     out.push(Tmpl::Comp(self.nodes(false)?));
+                }
+                Some(b'M') => {
+                    self.i += 1;
+                    out.push(Tmpl::Comment(self.hex()?));
+                }
+                Some(b'Y') => {
+                    self.i += 1;
+                    out.push(Tmpl::Doctype);
                 }
                 Some(b'E') => {
                     self.i += 1;
@@ -221,7 +235,7 @@ pub fn is_raw_tag(t: &str) -> bool {
 fn walk_holes(nodes: &mut [Tmpl], raw: bool, f: &mut dyn FnMut(HoleKind, &mut String), g: &mut dyn FnMut(&mut bool)) {
     for n in nodes.iter_mut() {
         match n {
-            Tmpl::Text(..) => {}
+            Tmpl::Text(..) | Tmpl::Comment(_) | Tmpl::Doctype => {}
             Tmpl::Block(s) => f(if raw { HoleKind::RawText } else { HoleKind::Text }, s),
             Tmpl::Elem(tag, attrs, kids) => {
                 for a in attrs.iter_mut() {
@@ -291,7 +305,7 @@ fn strip_flags(nodes: &mut [Tmpl]) {
     for n in nodes.iter_mut() {
         match n {
             Tmpl::Text(_, u) => *u = false,
-            Tmpl::Block(_) => {}
+            Tmpl::Block(_) | Tmpl::Comment(_) | Tmpl::Doctype => {}
             Tmpl::Elem(_, _, k) | Tmpl::Frag(k) | Tmpl::Comp(k) => strip_flags(k),
         }
     }
@@ -327,6 +341,8 @@ pub fn dynamize(nodes: &[Tmpl]) -> Vec<Tmpl> {
             ),
             Tmpl::Frag(k) => Tmpl::Frag(dynamize(k)),
             Tmpl::Comp(k) => Tmpl::Comp(dynamize(k)),
+            Tmpl::Comment(c) => Tmpl::Comment(c.clone()),
+            Tmpl::Doctype => Tmpl::Doctype,
         })
         .collect()
 }
@@ -498,6 +514,8 @@ impl Src {
                     self.nodes(kids);
                     self.o.push_str("</Wrap>");
                 }
+                Tmpl::Comment(c) => self.o.push_str(&format!("<!-- {:?} -->", c)),
+                Tmpl::Doctype => self.o.push_str("<!DOCTYPE html>"),
             }
         }
     }
@@ -548,6 +566,12 @@ pub const RAWS: &[&str] = &["textarea", "script", "style", "noscript", "title"];
 pub const SVG_LEAF: &[&str] = &["circle", "rect", "path"];
 /// SVG tags of the family (all lower case); parsed as custom elements `x-<tag>` by the oracle
 pub const SVG_ALL: &[&str] = &["svg", "g", "circle", "rect", "path"];
+/// MathML tags of the family; attributes only through `.attr` names with a dash and `class`
+pub const MATH_ALL: &[&str] = &["math", "mrow", "mi", "mo", "mn"];
+pub const MATH_LEAF: &[&str] = &["mi", "mo", "mn"];
+pub fn is_foreign(t: &str) -> bool {
+    SVG_ALL.contains(&t) || MATH_ALL.contains(&t)
+}
 
 const TEXTS: &[&str] = &[
     "a", "hello world", "t<&>\"'", "</div>", "<!--", "&amp;", " ", "  x  ", "日本", "é", "a\nb", "<script>",
@@ -564,7 +588,7 @@ const STYLE_VALS: &[&str] =
     &["color:red", "color:red;left:1px", " margin:0 ", "", "a:b;;", "x:\"<&>", "color:red;", "top:1px ; left:2px"];
 const STYLE_KV_VALS: &[&str] = &["1px", "red", "\"<&>", "", "a;b", " 2em "];
 /// strings that read back unchanged from an unescaped raw-text element
-const RAW_TEXTS: &[&str] = &["a", "var a=1;", "p{color:red}", "x y", "if (a > b) {}", "1 < 2", "\"q\"", "é", "a&b"];
+const RAW_TEXTS: &[&str] = &["a", "var a=1;", "p{color:red}", "x y", "if (a > b) {}", "1 < 2", "\"q\"", "é", "a & b"];
 const NOSCRIPT_HOSTILE: &[&str] = &["a<b", "x&y", "1 > 0", "<b>t</b>"];
 const PLAIN_NAMES: &[&str] = &["id", "title", "lang", "data-k", "data-v2", "aria-label", "dir", "role"];
 const SVG_NAMES: &[&str] = &["cx", "r", "d", "fill", "x", "width"];
@@ -586,6 +610,16 @@ enum Mode {
     Mixed,   // any form
 }
 
+/// does the node produce a view at all? (a template / component body made only of comments and empty
+/// fragments expands to `()`)
+pub fn renders(t: &Tmpl) -> bool {
+    match t {
+        Tmpl::Comment(_) => false,
+        Tmpl::Frag(k) => k.iter().any(renders),
+        _ => true,
+    }
+}
+
 struct Gen {
     r: Sm,
 }
@@ -602,10 +636,13 @@ impl Gen {
     }
 
     fn attrs(&mut self, tag: &str, mode: Mode, max: usize) -> Vec<TAttr> {
+        let math = MATH_ALL.contains(&tag);
         let svg = SVG_ALL.contains(&tag);
-        let custom = tag.contains('-');
+        let custom = tag.contains('-') || math;
         let names: &[&str] = if svg {
             SVG_NAMES
+        } else if math {
+            &["data-k", "data-v2"]
         } else if custom {
             CUSTOM_NAMES
         } else {
@@ -635,7 +672,9 @@ impl Gen {
                     TAttr::Plain(dynv, nm, self.r.pick(ATTR_VALS).to_string())
                 }
                 2 => {
-                    let nm = if svg || custom {
+                    let nm = if math {
+                        "data-f"
+                    } else if svg || custom {
                         "foo2"
                     } else if matches!(tag, "input" | "button") && self.r.chance(1, 2) {
                         "disabled"
@@ -647,7 +686,9 @@ impl Gen {
                 3 => TAttr::Cls(dynv, self.r.pick(CLASS_VALS).to_string()),
                 4 => TAttr::Style(dynv, self.r.pick(STYLE_VALS).to_string()),
                 5 => {
-                    let nm = if svg || custom {
+                    let nm = if math {
+                        "data-g"
+                    } else if svg || custom {
                         "foo3"
                     } else if matches!(tag, "input" | "button") && self.r.chance(1, 2) {
                         "disabled"
@@ -681,47 +722,59 @@ impl Gen {
         out
     }
 
-    /// children of an element; `inline`: only phrasing content; `inter`: already inside a / button
+    /// children of an element; `inline`: only phrasing content; `inter`: already inside a / button.
+    /// Every node kind the macro accepts can occur in every position: text (quoted / unquoted), elements,
+    /// fragments (0, 1 or more children), comments, components; `{block}`s only in `Mixed` mode.
     fn kids(&mut self, depth: usize, inline: bool, inter: bool, mode: Mode, max: usize) -> Vec<Tmpl> {
         let n = self.r.below(max + 1);
         let mut out = vec![];
         for _ in 0..n {
-            let k = self.r.below(if mode == Mode::Static { 6 } else { 10 });
+            let k = self.r.below(20);
             match k {
-                0 | 1 => out.push(self.text()),
-                2 | 3 | 4 | 5 => {
+                0..=3 => out.push(self.text()),
+                4..=10 => {
                     if depth == 0 {
                         out.push(self.text());
                     } else {
                         out.push(self.elem(depth, inline, inter, mode));
                     }
                 }
-                6 | 7 => out.push(Tmpl::Block(String::new())),
-                8 => {
-                    if depth == 0 {
-                        out.push(Tmpl::Block(String::new()));
+                11 | 12 => {
+                    let k = if depth == 0 {
+                        (0..self.r.below(4)).map(|_| self.text()).collect()
                     } else {
-                        let mut k = self.kids(depth - 1, inline, inter, mode, 3);
-                        if k.is_empty() {
-                            k.push(self.text());
-                        }
-                        out.push(Tmpl::Frag(k));
-                    }
+                        self.kids(depth - 1, inline, inter, mode, 3)
+                    };
+                    out.push(Tmpl::Frag(k));
                 }
-                _ => {
+                13 => out.push(self.comment()),
+                14 => {
                     if depth == 0 || inline {
-                        out.push(Tmpl::Block(String::new()));
+                        out.push(self.comment());
                     } else {
                         let mut k = self.kids(depth - 1, false, false, mode, 3);
-                        if k.is_empty() {
+                        if !k.iter().any(renders) {
                             k.push(self.text());
                         }
                         out.push(Tmpl::Comp(k));
                     }
                 }
+                _ => {
+                    if mode == Mode::Mixed {
+                        out.push(Tmpl::Block(String::new()));
+                    } else if depth == 0 || self.r.chance(1, 2) {
+                        out.push(self.text());
+                    } else {
+                        out.push(self.elem(depth, inline, inter, mode));
+                    }
+                }
             }
         }
         out
+    }
+
+    fn comment(&mut self) -> Tmpl {
+        Tmpl::Comment(self.r.pick(&["c", "a comment", "-->", "<b>"]).to_string())
     }
 
     fn sub_mode(&mut self, mode: Mode) -> Mode {
@@ -766,7 +819,8 @@ impl Gen {
                     Tmpl::Elem(tag.into(), a, k)
                 }
             }
-            9 | 10 => self.svg(mode),
+            9 => self.svg(mode),
+            10 => self.math(mode),
             11 => {
                 let tag = self.r.pick(INLINE);
                 Tmpl::Elem(tag.into(), vec![], vec![])
@@ -789,6 +843,24 @@ impl Gen {
             }
             _ => self.raw(mode),
         }
+    }
+
+    fn math(&mut self, mode: Mode) -> Tmpl {
+        let mut leaves = vec![];
+        for _ in 0..1 + self.r.below(3) {
+            let tag = self.r.pick(MATH_LEAF);
+            let a = self.attrs(tag, mode, 1);
+            let t = self.r.pick(&["x", "+", "2", "<", "&"]);
+            leaves.push(Tmpl::Elem(tag.into(), a, vec![Tmpl::Text(t.to_string(), false)]));
+        }
+        let inner = if self.r.chance(1, 2) {
+            let a = self.attrs("mrow", mode, 1);
+            vec![Tmpl::Elem("mrow".into(), a, leaves)]
+        } else {
+            leaves
+        };
+        let a = self.attrs("math", mode, 2);
+        Tmpl::Elem("math".into(), a, inner)
     }
 
     fn svg(&mut self, mode: Mode) -> Tmpl {
@@ -936,6 +1008,45 @@ pub fn shapes(n: usize) -> Vec<Shape> {
     out.push(shape_of(vec![el("div", vec![], vec![el("textarea", vec![], vec![tx("a"), tx("b")])])], &mut g.r));
     out.push(shape_of(vec![el("div", vec![], vec![el("title", vec![], vec![tx("T"), tx("u")])])], &mut g.r));
     out.push(shape_of(vec![el("div", vec![], vec![el("script", vec![], vec![tx("var a"), tx("=1;")])])], &mut g.r));
+    // 7. every node kind in every position
+    let b = |t: &str| el("b", vec![], vec![tx(t)]);
+    let idp = |v: &str| TAttr::Plain(false, "id".into(), v.into());
+    let dynp = || TAttr::Plain(true, "title".into(), String::new());
+    let frag = |k: Vec<Tmpl>| Tmpl::Frag(k);
+    let cm = |c: &str| Tmpl::Comment(c.into());
+    let unq = |t: &str| Tmpl::Text(t.into(), true);
+    let many = |n: usize| -> Vec<Tmpl> { (0..n).map(|i| el("b", vec![], vec![tx(&format!("k{i}"))])).collect() };
+    // fragments nested in a static / dynamic parent, with 0, 1, 2, 3 children, nested in each other
+    for attrs in [vec![idp("s")], vec![dynp()]] {
+        out.push(shape_of(vec![el("div", vec![], vec![el("section", attrs.clone(), vec![b("a"), frag(vec![b("b"), b("c")]), b("d")])])], &mut g.r));
+        out.push(shape_of(vec![el("div", vec![], vec![el("p", attrs.clone(), vec![tx("a"), frag(vec![tx("b"), el("i", vec![], vec![tx("c")]), tx("d")]), tx("e")])])], &mut g.r));
+        out.push(shape_of(vec![el("div", vec![], vec![el("p", attrs.clone(), vec![frag(vec![]), tx("t"), frag(vec![b("one")]), frag(vec![frag(vec![tx("x"), tx("y")]), tx("z")])])])], &mut g.r));
+        // comments
+        out.push(shape_of(vec![el("div", vec![], vec![el("p", attrs.clone(), vec![tx("x"), cm("c"), tx("y"), b("z"), cm("-->")])])], &mut g.r));
+        // unquoted text
+        out.push(shape_of(vec![el("div", vec![], vec![el("p", attrs.clone(), vec![unq("plain words"), b("x"), unq("more")])])], &mut g.r));
+        // a component with children inside an otherwise static / dynamic element, and nested components
+        out.push(shape_of(vec![el("div", vec![], vec![el("section", attrs.clone(), vec![Tmpl::Comp(vec![tx("in"), Tmpl::Comp(vec![b("deep"), cm("c")])]), b("after")])])], &mut g.r));
+        // more than 16 children (tuples are chunked beyond 16)
+        out.push(shape_of(vec![el("div", vec![], vec![el("section", attrs.clone(), many(18))])], &mut g.r));
+        // MathML
+        out.push(shape_of(
+            vec![el("div", vec![], vec![el("p", attrs.clone(), vec![el("math", vec![TAttr::Cls(false, "m".into())], vec![el("mrow", vec![], vec![el("mi", vec![TAttr::Plain(false, "data-k".into(), "v".into())], vec![tx("x")]), el("mo", vec![], vec![tx("<")]), el("mn", vec![], vec![tx("2")])])])])])],
+            &mut g.r,
+        ));
+    }
+    out.push(shape_of(vec![cm("lead"), el("div", vec![], vec![tx("x")]), cm("trail")], &mut g.r));
+    out.push(shape_of(vec![frag(vec![cm("only a comment"), frag(vec![])]), tx("t")], &mut g.r));
+    out.push(shape_of(vec![Tmpl::Comp(vec![cm("c"), frag(vec![tx("a"), tx("b")]), el("p", vec![idp("p")], vec![frag(vec![b("1"), b("2")])])])], &mut g.r));
+    out.push(shape_of(vec![Tmpl::Doctype, el("div", vec![idp("d")], vec![el("p", vec![idp("q")], vec![tx("x")])])], &mut g.r));
+    out.push(shape_of(vec![Tmpl::Doctype, tx("text after doctype"), Tmpl::Block(String::new())], &mut g.r));
+    let mut m17 = many(16);
+    m17.push(Tmpl::Block(String::new()));
+    out.push(shape_of(vec![el("div", vec![], m17)], &mut g.r));
+    out.push(shape_of(many(17), &mut g.r));
+    out.push(shape_of(vec![Tmpl::Comp(many(17))], &mut g.r));
+    out.push(shape_of(vec![el("div", vec![], vec![frag(many(20))])], &mut g.r));
+    out.push(shape_of(vec![el("math", vec![], vec![el("mi", vec![], vec![tx("y")]), Tmpl::Block(String::new())])], &mut g.r));
     // 6. pseudo-random templates
     while out.len() < n {
         let mode = if g.r.chance(1, 4) { Mode::Static } else { Mode::Mixed };
@@ -943,21 +1054,19 @@ pub fn shapes(n: usize) -> Vec<Shape> {
         let mut roots = vec![];
         for _ in 0..nroots {
             let depth = 1 + g.r.below(3);
-            let c = g.r.below(10);
+            let c = g.r.below(11);
             if c == 0 {
                 roots.push(g.text());
             } else if c == 1 {
                 let mut k = g.kids(depth - 1, false, false, mode, 3);
-                if k.is_empty() {
+                if !k.iter().any(renders) {
                     k.push(g.text());
                 }
                 roots.push(Tmpl::Comp(k));
             } else if c == 2 {
-                let mut k = g.kids(depth - 1, false, false, mode, 3);
-                if k.is_empty() {
-                    k.push(g.text());
-                }
-                roots.push(Tmpl::Frag(k));
+                roots.push(Tmpl::Frag(g.kids(depth - 1, false, false, mode, 3)));
+            } else if c == 3 {
+                roots.push(g.comment());
             } else {
                 // a root element is never inert: give it children that can be
                 let tag = g.r.pick(BLOCK);
@@ -968,6 +1077,13 @@ pub fn shapes(n: usize) -> Vec<Shape> {
                 }
                 roots.push(Tmpl::Elem(tag.into(), a, k));
             }
+        }
+        // a template made only of comments / empty fragments expands to `()`: give it something to render
+        if !roots.iter().any(renders) {
+            roots.push(g.text());
+        }
+        if g.r.chance(1, 15) {
+            roots.insert(0, Tmpl::Doctype);
         }
         out.push(shape_of(roots, &mut g.r));
     }
